@@ -351,7 +351,13 @@ pub(crate) fn compute_contract_weights(
                     return Err(ContractError::Unauthorized);
                 }
                 Ok((earliest_epoch_id, weight)) => {
-                    // some weight was recorded for the contract in the past, start from there
+                    // some weight was recorded for the contract in the past, start from there. If
+                    // nobody had staked this LP denom before start_from_epoch, the earliest record
+                    // lies within the range being computed and is itself a claimable epoch
+                    if earliest_epoch_id >= *start_from_epoch && earliest_epoch_id <= *current_epoch_id
+                    {
+                        contract_weights.insert(earliest_epoch_id, weight);
+                    }
                     (earliest_epoch_id, weight)
                 }
             }
